@@ -237,7 +237,13 @@ func (b *ReadWrite) PutMany(ctx context.Context, blks []blocks.Block) error {
 				if !b.opts.WriteAsCarV1 {
 					end += int64(b.header.DataOffset)
 				}
-				_ = b.f.Truncate(end)
+				if terr := b.f.Truncate(end); terr != nil && b.opts.WriteAsCarV1 {
+					// Nothing follows the sections of a CARv1: a partial section that cannot be
+					// cut off would end the archive unless later sections happen to cover it.
+					// Give up on this file. (In a CARv2 it ends up beyond the payload, where
+					// the index and the header make it harmless.)
+					b.ronly.closeWithoutMutex()
+				}
 			}
 			return err
 		}
